@@ -75,7 +75,10 @@ func main() {
 			}
 		}
 		adv := rng.Bool()
-		out.Line("cr %v %d %d %d %v", adv, w, voted, support, gpbft.VerifCouldReach(adv, w, voted, support))
+		if rng.Chance(1, 5) {
+			support = 0 // a value without any vote so far: mostly without an entry in the tally
+		}
+		out.Line("cr %v %d %d %d %v", adv, w, voted, support, gpbft.VerifCouldReach(adv, w, voted, support, rng.Chance(1, 3)))
 	}
 
 	// 3. int64 samples away from the power domain (non-negative totals below 2^61)
